@@ -1,0 +1,34 @@
+//go:build verif
+// +build verif
+
+package consensus
+
+import (
+	"github.com/LemoFoundationLtd/lemochain-core/chain/types"
+	"github.com/LemoFoundationLtd/lemochain-core/common"
+)
+
+// VerifEngineEvent is one engine call, emitted while chainLock is still held, after the state change.
+type VerifEngineEvent struct {
+	Seq    uint64
+	Op     string // MineBlock, InsertBlock, InsertConfirms
+	Block  *types.Block
+	Height uint32
+	Hash   common.Hash
+	Sigs   []types.SignData
+}
+
+// VerifEngineHook receives the events of every engine (conformance harness only). It runs under chainLock,
+// so it may read the engine's state consistently but must not call locked engine methods.
+var VerifEngineHook func(dp *DPoVP, ev VerifEngineEvent)
+
+var verifEngineSeq uint64
+
+// verifTrace is deferred right after `defer dp.chainLock.Unlock()`, so it runs before the lock is released.
+func verifTrace(dp *DPoVP, op string, block *types.Block, height uint32, hash common.Hash, sigs []types.SignData) {
+	if VerifEngineHook == nil {
+		return
+	}
+	verifEngineSeq++ // under chainLock of the traced engine (one traced engine per process)
+	VerifEngineHook(dp, VerifEngineEvent{Seq: verifEngineSeq, Op: op, Block: block, Height: height, Hash: hash, Sigs: sigs})
+}
